@@ -93,8 +93,9 @@ fn random_path(rng: &mut Rng, class: PathClass) -> String {
                 rng.pick(&AWKWARD).to_string()
             }
         }
-        PathClass::Hostile => {
-            if rng.chance(1, 3) {
+        PathClass::Hostile => match rng.below(4) {
+            0 => rng.pick(&HOSTILE).to_string(),
+            1 => {
                 let alphabet: Vec<char> = "\"\\\"\\ab /n0;()".chars().collect();
                 let n = rng.range(1, 16);
                 let mut s: String = (0..n).map(|_| *rng.pick(&alphabet)).collect();
@@ -102,10 +103,28 @@ fn random_path(rng: &mut Rng, class: PathClass) -> String {
                     s.push(*rng.pick(&['"', '\\']));
                 }
                 s
-            } else {
-                rng.pick(&HOSTILE).to_string()
             }
-        }
+            _ => {
+                // any benign or awkward path (non-ASCII, long, empty, ...) with 1-3 special
+                // characters inserted at random character positions, incl. first and last
+                let base = if rng.chance(1, 4) { random_path(rng, PathClass::Benign) } else { random_path(rng, PathClass::Awkward) };
+                let mut chars: Vec<char> = base.chars().collect();
+                for _ in 0..rng.range(1, 3) {
+                    let at = match rng.below(4) {
+                        0 => 0,
+                        1 => chars.len(),
+                        _ => rng.usize_below(chars.len() + 1),
+                    };
+                    let special = *rng.pick(&['"', '\\', '"', '\\']);
+                    chars.insert(at, special);
+                    if rng.chance(1, 4) {
+                        // two special characters in a row
+                        chars.insert(at, *rng.pick(&['"', '\\']));
+                    }
+                }
+                chars.into_iter().collect()
+            }
+        },
     }
 }
 
